@@ -694,6 +694,7 @@ Fixpoint first_mismatch (t : jty) (v : value) : option rel_err :=
   | TUnit => match v with VNull => None | _ => Some (0, KNull, kind_of v) end
   | TBool => match v with VBool _ => None | _ => Some (0, KBoolean, kind_of v) end
   | TString => match v with VStr _ => None | _ => Some (0, KString, kind_of v) end
+  | TNumber => match v with VNum _ => None | _ => Some (0, KNumber, kind_of v) end
   | TOption t' => match v with VNull => None | _ => first_mismatch t' v end
   | TVec t' => match v with
                | VArr items => first_in_items (first_mismatch t') 1 items
@@ -760,7 +761,8 @@ End TryLoops.
 Lemma try_from_refines : forall t cm v off,
   shaped cm off v -> try_from_json_at t cm v off = Some (shift_err off (first_mismatch t v)).
 Proof.
-  induction t as [| | | t' IH | t' IH | t' IH]; intros cm v off Hsh.
+  induction t as [| | | | t' IH | t' IH | t' IH]; intros cm v off Hsh.
+  - destruct v; cbn [try_from_json_at first_mismatch shift_err]; rewrite ?Nat.add_0_r; reflexivity.
   - destruct v; cbn [try_from_json_at first_mismatch shift_err]; rewrite ?Nat.add_0_r; reflexivity.
   - destruct v; cbn [try_from_json_at first_mismatch shift_err]; rewrite ?Nat.add_0_r; reflexivity.
   - destruct v; cbn [try_from_json_at first_mismatch shift_err]; rewrite ?Nat.add_0_r; reflexivity.
@@ -825,7 +827,8 @@ Qed.
 Lemma offends_sound : forall t v i e,
   offends t v i e -> exists f, nth_error (preorder v) i = Some (FValue f) /\ kind_of f <> e.
 Proof.
-  induction t as [| | | t' IH | t' IH | t' IH]; intros v i e H; cbn [offends] in H.
+  induction t as [| | | | t' IH | t' IH | t' IH]; intros v i e H; cbn [offends] in H.
+  - destruct H as (-> & -> & H). exists v. destruct (preorder_head v) as [r ->]. split; [reflexivity|exact H].
   - destruct H as (-> & -> & H). exists v. destruct (preorder_head v) as [r ->]. split; [reflexivity|exact H].
   - destruct H as (-> & -> & H). exists v. destruct (preorder_head v) as [r ->]. split; [reflexivity|exact H].
   - destruct H as (-> & -> & H). exists v. destruct (preorder_head v) as [r ->]. split; [reflexivity|exact H].
@@ -910,7 +913,8 @@ Ltac leaf_ok v :=
 
 Lemma first_mismatch_spec : forall t v, first_mismatch_ok t v.
 Proof.
-  induction t as [| | | t' IH | t' IH | t' IH]; intros v.
+  induction t as [| | | | t' IH | t' IH | t' IH]; intros v.
+  - leaf_ok v.
   - leaf_ok v.
   - leaf_ok v.
   - leaf_ok v.
